@@ -109,6 +109,20 @@ def run_proc(case):
         if not (0.99 <= pf <= 1 + 1e-3) or not (0.99 <= rf <= 1 + 1e-3):
             raise Violation(f"MLE fidelity to choi_from_unitary(V): {pf:.5f} (reported {rf:.5f})", key="mle-fidelity")
         labels.append("mle")
+        if n == 1 or case["target"][1] % 3 == 0:
+            # a result that was handed out stays what it was when another maximum-likelihood run happens afterwards
+            keep = np.array(cm, copy=True)
+            mle2 = call("MLEProcessTomography (second object)", tomography.MLEProcessTomography, n, base, experiment,
+                        **kw_args)
+            call("MLE process (second object)", mle2.process)
+            if not np.array_equal(np.asarray(cm), keep) or not np.array_equal(np.asarray(mle.choi), keep):
+                raise Violation("the Choi matrix returned by an earlier MLE run changed when a second MLE run was made",
+                                key="mle-result-aliased")
+            rf2 = call("MLE fidelity (first object, after the second run)", mle.fidelity, choi_ref)
+            if abs(rf2 - rf) > 1e-12:
+                raise Violation(f"fidelity reported by the first MLE object changed from {rf} to {rf2} after a second "
+                                f"run", key="mle-result-aliased")
+            labels.append("second-mle-run")
     gf = call("GateFidelity", tomography.GateFidelity, n, base, experiment_scaled, **kw_args)
     f1 = call("GateFidelity.process(V)", gf.process, V)
     if abs(f1 - 1) > 1e-8:
@@ -129,6 +143,23 @@ def run_proc(case):
                         f"{want:.10g}", key="gate-fidelity-formula")
     if snapshot(base) != snap:
         raise Violation("tomography changed its base circuit", key="base-circuit-modified")
+    if case["target"][1] % 2 == 0:
+        # the base circuit is extended in place; the same tomography objects, run again, describe the new circuit
+        import lightworks as lw
+        W2 = qubits.make_unitary("haar", 2, case["target"][1] + 17)
+        qubits.add_on_qubit(base, prog, 0, lw.Unitary(W2))
+        V2 = qubits.on_qubit(n, 0, W2) @ V
+        ref2 = call("choi_from_unitary", tomography.choi_from_unitary, V2)
+        choi2 = call("LI process (after extending the base circuit)", li.process)
+        e2 = np.abs(choi2 - ref2).max()
+        if e2 > 1e-8:
+            raise Violation(f"second LI run after the base circuit was extended: Choi matrix differs from "
+                            f"choi_from_unitary(new V) by {e2:.4g}", key="li-stale-after-edit")
+        f3 = call("GateFidelity.process(new V) after extending the base circuit", gf.process, V2)
+        if abs(f3 - 1) > 1e-8:
+            raise Violation(f"gate fidelity against the extended circuit's own unitary = {f3}",
+                            key="gate-fidelity-stale-after-edit")
+        labels.append("re-run-after-edit")
     ph = V / (V.flat[np.argmax(np.abs(V))] / abs(V.flat[np.argmax(np.abs(V))]))
     real = np.abs(np.imag(ph)).max() < 1e-9
     sym = np.abs(V - V.T).max() < 1e-9
